@@ -2,6 +2,7 @@ import MidoModel.Tokenizer
 import MidoModel.Meta
 import MidoModel.Tracks
 import MidoModel.Tempo
+import MidoModel.Smf
 /- Text protocol helpers for the driver: parsing requests, printing canonical results. -/
 namespace Mido
 
@@ -143,6 +144,36 @@ def parsePair (s : String) : Option (Int × Int) :=
   match s.splitOn ":" with
   | [a, b] => do let x ← parseInt? a; let y ← parseInt? b; pure (x, y)
   | _ => none
+
+/-! file events: `<time>;msg;<type>;<args..>` | `<time>;meta;<type>;<vals..>` | `<time>;umeta;<tb>;<b,b,..>` -/
+def parseFEv (fields : List String) : Option FEv :=
+  match fields with
+  | "msg" :: rest => (parseMsg rest).map .msg
+  | "meta" :: rest => (parseMetaMsg rest).map .metaEv
+  | ["umeta", tb, data] => do
+    let t ← parseNat? tb
+    let d ← (splitComma data).mapM parseNat?
+    pure (.unknownMeta t d)
+  | ["umeta", tb] => (parseNat? tb).map (fun t => .unknownMeta t [])
+  | _ => none
+
+def parseTEvent (s : String) : Option TEvent :=
+  match s.splitOn ";" with
+  | t :: rest => do
+    let time ← parsePyVal t
+    let ev ← parseFEv rest
+    pure ⟨ev, time⟩
+  | _ => none
+
+def FEv.show : FEv → String
+  | .msg m => "msg;" ++ ";".intercalate (m.show.splitOn " ")
+  | .metaEv m => "meta;" ++ ";".intercalate (m.show.splitOn " ")
+  | .unknownMeta tb d => s!"umeta;{tb};" ++ commaList (d.map toString)
+
+def LEvent.show (e : LEvent) : String := s!"{e.delta};" ++ e.ev.show
+
+def LFile.show (f : LFile) : String :=
+  s!"{f.type} {f.tpb}" ++ String.join (f.tracks.map (fun t => " |" ++ String.join (t.map (fun e => " " ++ e.show))))
 
 /-- run-length compression `x*n` of equal neighbours, joined by `;` -/
 def rle (xs : List String) : String :=
